@@ -315,6 +315,38 @@ def run(R):
     # ---- DEDUP-KEY thread component
     from .c12 import dedup_key_rule
     dedup_key_rule(R, "C16.DEDUP-KEY")
+    # ---- a threading.local subclass is instantiated without arguments (or with constants): the arguments are evaluated once, kept,
+    # and __init__ is re-run with the very same objects in every thread that touches the holder - a mutable argument (a pre-built
+    # batch, a dict) is one object shared by all threads
+    n_tls = 0
+    for mname, m in sorted(repo.modules.items()):
+        for c in [x for x in ast.walk(m.tree) if isinstance(x, ast.Call)]:
+            nm = q.call_name(c)
+            r = repo.resolve_dotted(m, nm) if nm else None
+            if r is None or r[0] != "class" or "threading.local" not in r[1].ext_bases():
+                continue
+            n_tls += 1
+            shared = [q.src(a)[:40] for a in list(c.args) + [k.value for k in c.keywords] if classify_value(R, m, a.value if isinstance(a, ast.Starred) else a)[0] not in ("immutable", "function")]
+            R.check(not shared, "C16.HOLDER", "%s:%s:ctor-args" % (mname, nm), R.site(m, c),
+                    "%s() is created without per-process objects as arguments" % nm,
+                    "%s(...) is given %s: threading.local keeps the constructor arguments and re-runs __init__ with the same objects in every thread, so "
+                    "what they build is shared between threads (e.g. one pre-built debug batch that items of all threads join)" % (nm, ", ".join(shared)))
+    R.need(n_tls >= 2, "fewer instantiations of threading.local holders than confirmed by hand (%d < 2)" % n_tls)
+    # ---- the process-wide configuration object is read-only for the library: no function of the package assigns an option.  A
+    # save / force / restore of an option around some call is visible to every other thread for its duration (and overlapping
+    # restores can leave the forced value behind)
+    for f in repo.all_functions():
+        if f.module.name in ("debug", "_debug"):
+            continue        # the configuration interface itself (enable/disable_complex_assertions, ...): called by the program, not by the machinery
+        for recv, attr, node in q.attr_stores(f.node):
+            if recv is None:
+                continue
+            is_cfg = recv in ("_debug_options", "options", "debug.options", "_debug.options") or recv.endswith(".options")
+            if not is_cfg:
+                continue
+            R.violation("C16.STATE", "%s:%s.%s" % (f.qualname, recv, attr), R.site(f, node),
+                        "%s assigns the process-wide option %s.%s: every thread's scheduler reads the forced value for as long as it is in place (its per-step "
+                        "dependency reset, what its batches keep), and two overlapping save/restore pairs can leave it set" % (f.qualname, recv, attr))
     R.require_min("C16.STATE", 60)
     R.require_min("C16.HOLDER", 6)
 
